@@ -188,7 +188,7 @@ theorem C03_bytes {s : Stmt} {bs : Bytes} (h : stmtBytes s = some bs) :
 /-! ### PC-relative operands -/
 
 /-- `fix_addresses` on a PCR statement (`needsRes`), at the level of `fixOne`: the stored value is
-`numericOfInt jump (some pcrHint)` with `jump = target − own address − own size`, reduced mod 65536 for the
+`numericOfInt jump (some pcrHint)` with `jump = target − own address − own size` as a signed 16-bit distance (fix ec1693d), reduced mod 65536 for the
 16-bit form; `target` is what `fixRel` computes (for a plain label: the address of the statement it names) -/
 theorem C03_pcr_fixOne {ss : List Stmt} {i : Nat} {s s' : Stmt} (hk : (s.operand.kind == .relative) = false)
     (hv1 : s.operand.value.isAddrExpr = false) (hv2 : s.operand.value.isAddress = false)
@@ -196,7 +196,8 @@ theorem C03_pcr_fixOne {ss : List Stmt} {i : Nat} {s s' : Stmt} (hk : (s.operand
     ∃ target start v, fixRel ss s = .ok target ∧ addrIntOf ss i = some start ∧
       numericOfInt (pcrJump s target start) (some s.pcrHint) .none = .ok v ∧ s' = withAdditional s v ∧
       pcrJump s target start =
-        (if s.pcrHint = 4 then ((target : Int) - start - s.pkg.size) % 65536 else (target : Int) - start - s.pkg.size) := by
+        (let d : Int := ((target : Int) - start - s.pkg.size + 0x8000) % 0x10000 - 0x8000   -- signed distance mod 65536
+         if s.pcrHint = 4 then d % 65536 else d) := by
   obtain ⟨r, start, v, h1, h2, h3, h4⟩ := fixOne_pcr hk hv1 hv2 hv3 hn h
   exact ⟨r, start, v, h1, h2, h3, h4, rfl⟩
 
@@ -291,8 +292,9 @@ theorem C03_Statement_false : ¬ C03_Statement := by
 (2) in range, the stored field encodes the sum of sizes, as a sign-extended byte or modulo 65536;
 (3) for an accepted program without an ORG between branch and target, field + next instruction address =
 target address; (4) PCR statements store `target − address − size`.
-Not claimed: the 8-bit PCR form is only chosen for offsets in −128..127 (the former counterexample
-`C03_pcr_range_counterexample` was repaired by fix aafdc4b and deleted; the property itself is not proved here). -/
+The width invariant (the 8-bit PCR form is only chosen for offsets in −128..127) is proved in
+`Props/C03Width.lean` (`C03_pcr8_width`, `C03_pcr_label`); five counterexamples met on the way were repaired in
+/repo (aafdc4b, 8dc2b21, 0293787, 95bb240, ec1693d). -/
 theorem C03_partial :
     (∀ (ss : List Stmt) (i b : Nat) (s : Stmt), s.operand.kind = .relative → s.pkg.additional.int? = some b →
       (fixOne ss i s = .diag ↔
